@@ -444,7 +444,7 @@ func TestCheck(t *testing.T) {
 	peer.Register()
 	r := h.Start(t, "C11")
 	defer r.Finish()
-	r.Meta("rule", "every case runs in a harness child process whose death is attributed to the running case (journal). Per transport {mock, tcp, unix, udp, net/http, fasthttp, ws, ws-fasthttp; fasthttp client in processes of its own} x worker pool off/on, a real service and two real clients (A injects the fault, B is another connection). Faults: service function panicking with string / error / int / struct / nil / nil-map write / nil dereference / index out of range / a 100 KB message; panicking missing-method handler and invoke plugins (before and after next); panicking and failing IO plugin; type-mismatched, surplus and absent arguments; 12 undecodable request bodies (garbage, truncated, huge declared counts, dangling references, unknown class, negative count); requests over MaxRequestLength; requests and responses over the udp datagram size; from a third raw peer: frames too short, bad checksum, lying and huge declared lengths, wrong protocol, valid frame with garbage body, error-flagged frames, malformed websocket messages, non-http bytes, short http bodies. Each fault is injected 3 times while 2+2 sentinel callers run on A and B, with sentinel calls before and after. Oracle: the process lives; the faulty call reports an error where one is due; sentinels on B never fail; sentinels on A never fail for call-level faults and never fail after the fault for connection-level ones. Also six peers at once that only declare 2 GiB (tcp/unix frame header, http Content-Length) against a service with the default MaxRequestLength, udp answers swept byte by byte from 65470 to 65515 bytes, and six http responses declaring 2 GiB. Client side: after every malformed response the very next call of the same client must succeed at once. A scripted server answers a real client with malformed, truncated, error-flagged and undecodable responses while sentinels run against a healthy server in the same process. Reverse provider functions that panic. distinct_nontrivial = distinct (transport, pool, fault) cells")
+	r.Meta("rule", "every case runs in a harness child process whose death is attributed to the running case (journal). Per transport {mock, tcp, unix, udp, net/http, fasthttp, ws, ws-fasthttp; fasthttp client in processes of its own} x worker pool off/on, a real service and two real clients (A injects the fault, B is another connection). Faults: service function panicking with string / error / int / struct / nil / nil-map write / nil dereference / index out of range / a 100 KB message; panicking missing-method handler and invoke plugins (before and after next); panicking and failing IO plugin; type-mismatched, surplus and absent arguments; 12 undecodable request bodies (garbage, truncated, huge declared counts, dangling references, unknown class, negative count); requests over MaxRequestLength; requests and responses over the udp datagram size; from a third raw peer: frames too short, bad checksum, lying and huge declared lengths, wrong protocol, valid frame with garbage body, error-flagged frames, malformed websocket messages, non-http bytes, short http bodies. Each fault is injected 3 times while 2+2 sentinel callers run on A and B, with sentinel calls before and after. Oracle: the process lives; the faulty call reports an error where one is due; sentinels on B never fail; sentinels on A never fail for call-level faults and never fail after the fault for connection-level ones. Also six peers at once that only declare 2 GiB (tcp/unix frame header, http Content-Length) against a service with the default MaxRequestLength, udp answers swept byte by byte from 65470 to 65515 bytes, and six http responses declaring 2 GiB. Client side: after every malformed response the very next call of the same client must succeed at once. A scripted server answers a real client with malformed, truncated, error-flagged and undecodable responses while sentinels run against a healthy server in the same process. Reverse provider functions that panic. distinct_nontrivial = distinct (transport, pool, fault) cells Added: six peers at once that only declare 2 GiB (tcp/unix header, http Content-Length) against the default MaxRequestLength, udp answers swept byte by byte around the datagram limit, six http responses declaring 2 GiB, and the requirement that the very next call after a malformed response succeeds. Round 3 additions: a connection lost to a malformed frame while slow calls it carried are running (worker pool on).")
 	kinds := peer.Kinds
 	if peer.FastHTTPClient {
 		kinds = []string{"fasthttp", "http"}
